@@ -209,27 +209,36 @@ def normalize_period(per: TimeDelta) -> np.timedelta64:
     Accepted formats:
        int:  number of seconds
        np.timedelta64
-       [value, unit]:  np.timedelta64(value, unit), unit = "h", "m", "s"
+       [value, unit]:  np.timedelta64(value, unit), unit = "d", "h", "m", "s"
 
        ISO 8601 format: "PTxHyMzS", x hours, y minutes, z seconds
     """
 
+    if isinstance(per, bool):  # a bool is an int for python
+        raise ValueError(f"{per} is not a valid time period")
+
     if isinstance(per, (int, np.timedelta64, datetime.timedelta)):
-        return np.timedelta64(per, "s")
+        period = np.timedelta64(per, "s")
+        # The model clock runs on whole seconds
+        if not isinstance(per, int) and period != per:
+            raise ValueError(f"{per} is not a whole number of seconds")
+        return period
     # if isinstance(per, np.timedelta64):
     #    return per.astype("m8[s]")
 
-    if isinstance(per, list):  # [value, unit] from yaml
+    if isinstance(per, (list, tuple)):  # [value, unit] from yaml
+        units = dict(s="s", m="m", h="h", d="D", D="D")  # numpy has D for days
         try:
             value, unit = per
-            if isinstance(value, int) and isinstance(unit, str):
-                return np.timedelta64(np.timedelta64(value, unit), "s")
         except (TypeError, ValueError) as exc:
             raise ValueError(f"{per} is not a valid time period") from exc
+        if isinstance(value, int) and not isinstance(value, bool) and unit in units:
+            return np.timedelta64(np.timedelta64(value, units[unit]), "s")
+        raise ValueError(f"{per} is not a valid time period")
 
     if isinstance(per, str):  # ISO 8601 standard PTxHyMzS
-        pattern = r"^PT(\d+H)?(\d+M)?(\d+S)?$"
-        m = re.match(pattern, per)
+        pattern = r"PT([0-9]+H)?([0-9]+M)?([0-9]+S)?"
+        m = re.fullmatch(pattern, per)
         if m is None:
             raise ValueError(f"{per} is not a valid time period")
         td = np.timedelta64(0, "s")
